@@ -29,6 +29,17 @@ def run(ctx):
             for kind, detail in r:
                 sig = "trav-prod: %s at %s" % (kind, travcmp.ops(s["prog"]))
                 ctx.diverge(sig, "%s %s" % (kind, detail), dict(graph=graphs[s["g"] - 1], state=s, outcome=outs[i]))
+        # C10, second sentence: the same traversal gives the same rows whichever embedded store backs the graph
+        if ctx.tier != "quick" and cfg == "Traversal_wide2.cfg":
+            light = [s for s in states if not travrun.is_heavy(s)]
+            for drv in ("bolt", "level", "pebble"):
+                o2 = travrun.replay(ctx, graphs, light, only="prod", tag="wide2_" + drv, driver=drv)
+                b2 = travrun.minimal(light, travrun.failures(light, o2, "prod"))
+                for i, r in sorted(b2.items()):
+                    for kind, detail in r:
+                        ctx.diverge("trav-prod[%s]: %s at %s" % (drv, kind, travcmp.ops(light[i]["prog"])), "%s %s" % (kind, detail),
+                                    dict(driver=drv, graph=graphs[light[i]["g"] - 1], state=light[i], outcome=o2[i]))
+            ctx.notes.append("wide2 states also replayed on bolt, level, pebble")
         total += len(states)
         nontriv += sum(1 for s in states if s["status"] == "ok" and s["rows"])
         for s in states[:: max(1, len(states) // 3)]:
